@@ -17,8 +17,12 @@ META = {
                   "The two operators the theorem is about are bound to the code: their values on every descriptor (all key classes; ids, "
                   "MaxErrors, MaxUnavailableZones, ZoneAwarenessEnabled or the error) are replayed against Ring.Get(Write) and "
                   "Ring.GetReplicationSetForOperation on a real ring, and seeded random larger rings are recorded and validated by TLC.",
-    "level_note": "The executors' success predicates themselves are bound to DoBatch / DoUntilQuorum by C10 / C11, not here. Exhaustive only "
-                  "within the listed universes; larger rings are sampled. Trusted: TLC, key-class embedding, rank compression, synctest clock.",
+    "level_note": "The success predicates the theorem relies on are bound to the REAL executors: for every subset A of the Write replica set "
+                  "(every key class) ring.DoBatch runs on the real ring with callbacks that succeed exactly on A and must succeed iff "
+                  "WriteSucceeds(w, A); for every subset B of the Read replication set DoUntilQuorum (with and without request minimisation) "
+                  "and ReplicationSet.Do must succeed iff ReadSucceeds(r, B) - on every descriptor of the small universes and every 6th-16th of "
+                  "the larger ones (callbacks return immediately; schedules and hedging are C10 / C11). Exhaustive only within the listed "
+                  "universes; larger rings are sampled. Trusted: TLC, key-class embedding, rank compression, synctest clock.",
     "technique": "TLA+ specification (RingLookup.tla) model-checked by TLC; TLC-generated cases replayed into the real code; "
                  "traces recorded from the real code validated by TLC",
     "design_ref": "DESIGN.md 2 C02",
